@@ -1307,6 +1307,13 @@ impl ProtocolState {
                 }
             }
             Some(ClientOperationOptions::Publish(publish_options)) => {
+                // a QoS 0 publish is complete once written; there is no ack to wait for, so the option has no effect
+                if let MqttPacket::Publish(publish) = &*operation.packet {
+                    if publish.qos == QualityOfService::AtMostOnce {
+                        return None;
+                    }
+                }
+
                 if let Some(timeout) = &publish_options.options.ack_timeout {
                     return Some(*timeout);
                 }
